@@ -116,14 +116,33 @@ func ruleTeardown(c *Ctx, rule string) {
 		c.Check(rule, key+":entry-deleted-at-most-once", p.Pos(g.Pos()), mxDel <= 1, fmt.Sprintf("the association goroutine deletes under its key up to %d times: after the first deletion the key may already belong to the client's next association, which is then dropped from the table while its socket stays open", mxDel))
 		for _, del := range dels {
 			f := del.Parent()
-			_, nonNil := p.NilEdges(f, func(v ssa.Value) bool { return v == ssa.Value(del) })
+			// what the deletion hands back: its single result, or the first of (entry, ok)
+			var got, gotOK ssa.Value = del, nil
+			if del.Call.Signature().Results().Len() > 1 {
+				got = nil
+				for _, r := range *del.Referrers() {
+					if ex, isEx := r.(*ssa.Extract); isEx {
+						if ex.Index == 0 {
+							got = ex
+						} else if ex.Type().String() == "bool" {
+							gotOK = ex
+						}
+					}
+				}
+			}
+			_, nonNil := p.NilEdges(f, func(v ssa.Value) bool { return got != nil && v == got })
+			if gotOK != nil {
+				te, _ := eng.BoolEdges(f, func(v ssa.Value) bool { return v == gotOK })
+				nonNil = eng.Union(nonNil, te)
+			}
 			isClose := func(ins ssa.Instruction) bool {
 				cl, ok := ins.(*ssa.Call)
 				if !ok || eng.MethodName(&cl.Call) != "Close" {
 					return false
 				}
 				r := eng.Receiver(&cl.Call)
-				return r != nil && p.AnyFrom(r, eng.Plain, func(v ssa.Value) bool { return v == ssa.Value(del) })
+				// (the entry itself, or the socket it embeds)
+				return r != nil && got != nil && p.AnyFrom(r, eng.OriginOpts{ThroughConvert: true, ThroughFieldLoad: true}, func(v ssa.Value) bool { return v == got })
 			}
 			okClose := false
 			if len(nonNil) > 0 {
